@@ -283,10 +283,10 @@ func (c *Ctx) ruleNoSyntacticType() {
 			}
 			var recv ssa.Value
 			switch FuncName(call.Call.StaticCallee()) {
-			case "annotations.parseTestOnlyAnnotation":
-				recv = call.Call.Args[4]
-			case "annotations.parsePackageOnlyAnnotation":
-				recv = call.Call.Args[4]
+			case "annotations.parseTestOnlyAnnotation", "annotations.parsePackageOnlyAnnotation":
+				if len(call.Call.Args) > 4 {
+					recv = call.Call.Args[4]
+				}
 			case fnMatch:
 				if strings.HasSuffix(FuncName(fn), "isInTestOnlyContext") && len(call.Call.Args) == 4 && strings.Contains(P.Desc(call.Call.Args[0]), "testOnlyMethods") {
 					recv = call.Call.Args[3]
